@@ -1,6 +1,7 @@
 import SJ.Proofs.Tables
 import SJ.Proofs.StrLex
 import SJ.Proofs.Escape
+import SJ.Proofs.StringWin
 /-
 C04 — String escapes decode exactly, independent of length and alignment.
 -/
@@ -65,5 +66,43 @@ theorem C04_decode_rejects (fuel : Nat) (s : List UInt8) (hf : s.length < fuel) 
       ((∃ j, j < d ∧ s.getD j 0 < 0x20) ∨
        ∀ (a : Bytes) (start lim : Nat), a.toList.drop start = s → decodeString a start lim = none) :=
   strFacts.rej fuel s hf h
+
+open SJ.ParseDefs SJ.StringWin in
+/-- **Independent of 32-byte windows.** `validateWin` / `copyWin` (`Model/StringWin`) model the two assembly routines
+    `_parse_string_validate_only` and `_parse_string` with their windowing: 32-byte loads at the current position, the
+    masks of quotes and backslashes, the `(bs-1)&q` / `(q-1)&bs` tests, the second load at offset−20 for a `\\u` escape at
+    window offsets ≥ 21, the 6/12 distance tests, the limit tested once per window. If the specification reads the body
+    as `dec`, then for every buffer, every start position — every alignment of the string and of each escape relative
+    to the windows — and every limit beyond the closing quote, the validate pass returns exactly (source length, decoded
+    length) and the copy pass stores exactly `dec`. -/
+theorem C04_window_exact (fuel : Nat) (s dec rest : List UInt8) (h : Spec.stringBody fuel s [] false = .acc dec rest) :
+    ∃ d, closeQ s = some d ∧ rest = s.drop (d + 1) ∧ (∀ j, j < d → ¬ (s.getD j 0 < 0x20)) ∧
+      ∀ (a : Bytes) (start lim : Nat), a.toList.drop start = s → d < lim →
+        validateWin a start lim = some (d, dec.length) ∧ copyWin a start = some dec.toArray :=
+  win_decode_exact fuel s dec rest h
+
+open SJ.ParseDefs SJ.StringWin in
+/-- … and a body the specification rejects is rejected by both windowed routines wherever it lies. -/
+theorem C04_window_rejects (fuel : Nat) (s : List UInt8) (hf : s.length < fuel) (h : Spec.stringBody fuel s [] false = .rej) :
+    closeQ s = none ∨ ∃ d, closeQ s = some d ∧
+      ((∃ j, j < d ∧ s.getD j 0 < 0x20) ∨
+       ∀ (a : Bytes) (start lim : Nat), a.toList.drop start = s → validateWin a start lim = none ∧ copyWin a start = none) :=
+  win_decode_rejects fuel s hf h
+
+open SJ.StringWin in
+/-- The windowed routines against the scalar decoder on ARBITRARY buffers (no grammar involved): scalar success ⇒ same
+    result from both passes; validate success ⇒ scalar success with a limit at most 31 bytes larger (the limit is tested
+    once per window — the only thing the scalar model does not capture, and the bound 31 is sharp); copy success ⇒
+    scalar success under any limit beyond the closing quote. -/
+theorem C04_window_vs_scalar (a : Bytes) (start lim : Nat) :
+    (∀ out q, decodeString a start lim = some (out, q) →
+      validateWin a start lim = some (q - start, out.size) ∧ copyWin a start = some out) ∧
+    (∀ n m, validateWin a start lim = some (n, m) →
+      ∃ out, decodeString a start (lim + 31) = some (out, start + n) ∧ out.size = m) ∧
+    (∀ out, copyWin a start = some out →
+      ∃ q, start ≤ q ∧ q < a.size ∧ ∀ lim', q - start < lim' → decodeString a start lim' = some (out, q)) :=
+  ⟨fun out q h => ⟨validateWin_of_scalar a start lim out q h, copyWin_of_scalar a start lim out q h⟩,
+   fun n m h => by obtain ⟨out, h1, h2, _⟩ := scalar_of_validateWin_tight a start lim n m h; exact ⟨out, h1, h2⟩,
+   fun out h => scalar_of_copyWin a start out h⟩
 
 end SJ.Properties.C04
